@@ -1867,12 +1867,19 @@ def module_constants(tree):
             if len(node.generators) != 1:
                 return None
             g = node.generators[0]
-            if g.ifs or g.is_async or not isinstance(g.iter, (ast.Tuple, ast.List)) \
-                    or not 1 <= len(g.iter.elts) <= 16 \
-                    or not all(_simple_table_elt(e) for e in g.iter.elts):
+            it = g.iter
+            if isinstance(it, ast.Call) and isinstance(it.func, ast.Name) \
+                    and it.func.id == "range" and len(it.args) == 1 and not it.keywords \
+                    and isinstance(it.args[0], ast.Constant) \
+                    and isinstance(it.args[0].value, int) and 1 <= it.args[0].value <= 16:
+                it = ast.Tuple(elts=[ast.Constant(k) for k in range(it.args[0].value)],
+                               ctx=ast.Load())
+            if g.ifs or g.is_async or not isinstance(it, (ast.Tuple, ast.List)) \
+                    or not 1 <= len(it.elts) <= 16 \
+                    or not all(_simple_table_elt(e) for e in it.elts):
                 return None
             maps = []
-            for e in g.iter.elts:
+            for e in it.elts:
                 if isinstance(g.target, ast.Name):
                     maps.append({g.target.id: e})
                 elif isinstance(g.target, (ast.Tuple, ast.List)) and isinstance(
@@ -1891,6 +1898,17 @@ def module_constants(tree):
             return ast.copy_location(ast.List(
                 elts=[_Subst(m).visit(copy.deepcopy(node.elt)) for m in maps],
                 ctx=ast.Load()), node)
+
+        def visit_Assign(self, node):
+            # a, b, c = (E(k) for k in <table>): the generator is consumed at once
+            if len(node.targets) == 1 and isinstance(node.targets[0], (ast.Tuple, ast.List)) \
+                    and isinstance(node.value, ast.GeneratorExp):
+                maps = self._rows(node.value)
+                if maps is not None and len(maps) == len(node.targets[0].elts):
+                    node.value = ast.copy_location(ast.Tuple(
+                        elts=[_Subst(m).visit(copy.deepcopy(node.value.elt)) for m in maps],
+                        ctx=ast.Load()), node.value)
+            return self.generic_visit(node)
 
         def visit_DictComp(self, node):
             self.generic_visit(node)
@@ -1971,6 +1989,8 @@ def split_records(fn, classes):
             if not (isinstance(par, ast.Attribute) and par.value is n
                     and isinstance(par.ctx, ast.Load)):
                 other.add(n.id)
+        elif isinstance(n.ctx, ast.Del) and isinstance(par, ast.Delete):
+            pass                        # `del record`: deletes the fields
         else:
             other.add(n.id)
     params = {a.arg for a in fn.args.args + fn.args.kwonlyargs}
@@ -2013,6 +2033,16 @@ def split_records(fn, classes):
                 if isinstance(n.value, ast.Name) and n.value.id == name:
                     return ast.copy_location(ast.Name(id=f"{name}__{n.attr}", ctx=n.ctx), n)
                 return self.generic_visit(n)
+
+            def visit_Delete(self, n):
+                new = []
+                for t in n.targets:
+                    if isinstance(t, ast.Name) and t.id == name:
+                        new.extend(ast.Name(id=f"{name}__{f}", ctx=ast.Del()) for f in fields)
+                    else:
+                        new.append(t)
+                n.targets = new
+                return n
         A().visit(fn)
         ast.fix_missing_locations(fn)
 
